@@ -27,7 +27,7 @@ P = {
  "C06": dict(level="exploration", tech="runtime monitor: recording log exporter + ticket-clock history oracle (once, per-producer order, batch bound, exclusivity, overwrite-soundness, immutability) over seeded concurrent histories under go -race",
              text="Held on every generated concurrent history of Emit/ForceFlush/Shutdown against the real BatchProcessor with slow/failing/blocking exporters.",
              note="Trusts race detector and harness exporter; schedules not produced are not covered."),
- "C07": dict(level="exploration", tech="runtime monitor: exact (big-float / exponent arithmetic) bucket-index oracle applied incrementally to every intermediate collection of generated measurement sequences",
+ "C07": dict(level="exploration", tech="runtime monitor: exact (big-float / exponent arithmetic) bucket-index oracle applied incrementally to every intermediate collection of generated measurement sequences; concurrent record/collect family checking every collected point for internal consistency; observable-counter family",
              text="Held on every generated measurement sequence, boundary list and (MaxSize, MaxScale) pair, collecting after every few records so every rescale is observed.",
              note="Trusts math/big and the harness' incremental rescale model."),
  "C08": dict(level="exploration", tech="runtime monitor: running delta ledger vs cumulative reader, interval adjacency on reported timestamps, async observation script model, over generated multi-cycle histories; wide (thousands of sets), concurrent (record while collecting, overlapping collections of one reader) and interrupted (collection attempts on done contexts) families",
